@@ -18,6 +18,9 @@ def chain_with_counts(r, coin, counts, genesis):
             wd = {'in': r.choice([3, 5, 9]), 'out': r.choice([3, 5, 9]), ('isl', 0): r.choice([3, 5, 9]), ('osl', 0): r.choice([3, 5, 9])} if j % 7 == 3 else None
             txs.append(Tx([(gen.rb(r, 32), j & 3, b'\x51' if j % 3 else b'', 0xffffffff)], [(j, P2PKH(gen.rb(r, 20)))], witness=wit, widths=wd))
         if n == 1 and h % 2 == 1: txs[0] = Tx(txs[0].inputs, txs[0].outputs, widths={'in': 3, ('osl', 0): 5})
+        if h % 3 == 1:      # scripts and witness items beyond every script-execution limit (10 000 / 520 bytes) are legal block content
+            big = r.choice([10001, 12000, 70000])
+            txs.append(Tx([(gen.rb(r, 32), 0, gen.rb(r, r.choice([0, big])), 0)], [(1, b'\x6a' + gen.rb(r, big)), (2, P2PKH(gen.rb(r, 20)))], witness=([[gen.rb(r, big), b'\x01']] if h % 2 else None)))
         b = Block(prev, txs, time=1300000000 + h, nonce=r.getrandbits(32), count_width=(r.choice([3, 5, 9]) if h % 3 == 2 else None)); blocks.append(b); prev = b.hash
     return blocks
 
@@ -25,7 +28,21 @@ def corrupt(case, blocks, h, where, r):
     """returns a copy of the case with one bit flipped in block h; `where` in merkle|prev|txdata|witness"""
     c = copy.copy(case); c.files = {n: list(e) for n, e in case.files.items()}; c.meta = dict(case.meta)
     b = blocks[h]; raw = bytearray(b.raw)
-    if where == 'merkle': pos = 36 + r.randrange(32)
+    if where == 'length':
+        # the top bit of a count / length byte of some transaction (covered by the txid): the parser then reads past the transaction - in the last block past the end of the file
+        off = 80 + len(b.auxpow) + len(b.count_bytes); k = r.randrange(len(b.txs))
+        for t in b.txs[:k]: off += len(t.disk)
+        t = b.txs[k]; base = off + (2 if t.witness is not None else 0); w = t.widths.get
+        if w('in') or w('out') or w(('isl', 0)): return None
+        lin = len(cs(len(t.inputs))); which = r.choice(['incount', 'isl', 'outcount'])
+        if which == 'incount': pos = base + 4
+        elif which == 'isl': pos = base + 4 + lin + 36
+        else:
+            p = base + 4 + lin
+            for (_, _, sc, _) in t.inputs: p += 36 + len(cs(len(sc))) + len(sc) + 4
+            pos = p
+        raw[pos] ^= 0x80
+    elif where == 'merkle': pos = 36 + r.randrange(32)
     elif where == 'prev': pos = 4 + r.randrange(32)
     elif where == 'witness':
         # a witness byte of a segwit tx: not covered by the txid
@@ -48,7 +65,7 @@ def corrupt(case, blocks, h, where, r):
             p = base + 4 + lin
             for k2, (_, _, sc, _) in enumerate(t.inputs): p += 36 + len(cs(len(sc), w(('isl', k2)))) + len(sc) + 4
             pos = p + len(cs(len(t.outputs), w('out'))) + r.randrange(8)
-    raw[pos] ^= 1 << r.randrange(8)
+    if where != 'length': raw[pos] ^= 1 << r.randrange(8)
     # rewrite the extent holding block h
     (n, off) = case.meta['place'][h]
     exts = c.files[n]
@@ -60,8 +77,8 @@ def corrupt(case, blocks, h, where, r):
 
 def explore(ck):
     r = ck.rng; quick = ck.tier == 'quick'
-    ck.rule = ('consistent chains with 1..%d transactions per block (every merkle tree shape up to 3 levels wide of 128+: counts %s), block 0 the real genesis block of 7 coins or --start >= 1; over-long CompactSize encodings in every 7th transaction and in block transaction counts (the txid commits to the on-disk bytes); '
-               'each chain is also run with one bit flipped in the merkle-root field, the prev-hash field, transaction bytes covered by a txid (version/outpoint/value/locktime) or a witness byte '
+    ck.rule = ('consistent chains with 1..%d transactions per block (every merkle tree shape up to 3 levels wide of 128+: counts %s), block 0 the real genesis block of 7 coins or --start >= 1; scripts and witness items of 10 001..70 000 bytes, over-long CompactSize encodings in every 7th transaction and in block transaction counts (the txid commits to the on-disk bytes); '
+               'each chain is also run with one bit flipped in the merkle-root field, the prev-hash field, transaction bytes covered by a txid (version/outpoint/value/locktime; the top bit of an input count, script length or output count, which in the last block makes the parser run past the end of the file) or a witness byte '
                '(not covered: must still pass), at every --start offset incl. corruption exactly at the first processed block and outside the range; expected from the generator: fails at the corrupted '
                'height iff it is processed. Non-trivial: passing case with >= 2 txs in a block, or a corrupted case; distinct by (counts, start, corruption).' % ((258 if quick else 1025), COUNTS_Q if quick else COUNTS_T))
     cases = []; expect = {}
@@ -81,8 +98,8 @@ def explore(ck):
         starts += [s for s in range(1, nb)]
         for s in (starts if not quick else starts[:2] + starts[-1:]):
             c = copy.copy(base); c.id = '%s_s%d' % (base.id, s); c.start = s; c.meta = dict(base.meta); cases.append(c); expect[c.id] = None
-            for where in ['merkle', 'prev', 'txdata', 'witness']:
-                for h in sorted({s, r.randrange(0, nb), max(0, s - 1), nb - 1}):
+            for where in ['merkle', 'prev', 'txdata', 'witness', 'length']:
+                for h in sorted({s, r.randrange(0, nb), max(0, s - 1), nb - 1}) if where != 'length' else sorted({nb - 1, r.randrange(s, nb)}):
                     cc = corrupt(c, blocks, h, where, r)
                     if cc is None: continue
                     cc.id = '%s_%s%d' % (c.id, where, h)
@@ -112,8 +129,9 @@ def explore(ck):
         else:
             if rr.rc == 0: diffs.append('exit 0 but the model rejects: %s' % st)
             if finals: diffs.append('final-named files after rejection: %s' % finals)
-            if st[0] == 'error' and st[2] in ('merkle', 'prev', 'genesis') and (rr.error_height != int(st[1]) or rr.error_kind != st[2]):
-                diffs.append('failing height/kind impl=%s/%s model=%s/%s' % (rr.error_height, rr.error_kind, st[1], st[2]))
+            if st[0] == 'error' and st[2] in ('merkle', 'prev', 'genesis'):
+                # which condition is reported, and at which height, is not part of the property (the run must fail and leave no final-named file): recorded, not compared
+                ck.count('rejected runs: reported height/kind %s the model\'s' % ('equals' if (rr.error_height == int(st[1]) and rr.error_kind == st[2]) else 'differs from'))
         if diffs: ck.disagreement('--verify on %s' % c.id, '\n'.join(diffs), c, in_domain=True)
         # (2) model vs the generator's expectation (the property's iff)
         mh = int(st[1]) if st[0] in ('error', 'panic') and len(st) > 1 else None
@@ -123,6 +141,7 @@ def explore(ck):
         elif max(c.meta['counts']) >= 2: ck.nontrivial((tuple(c.meta['counts']), c.start)); ck.count('consistent chains')
         ck.sample(dict(case=c.id, coin=c.coin, tx_counts=c.meta['counts'], start=c.start, corrupt=c.meta.get('corrupt'), model_status=st, impl_exit=rr.rc, impl_error=(rr.error_height, rr.error_kind)), limit=8)
     # ---- in-process: utils::merkle_root through its hook vs the Coq mirror, list lengths 1..600 incl. every odd/even pattern of levels ----
+    if not run.hooks_ok(ck): return
     lens = sorted(set(list(range(1, 70)) + [95, 96, 97, 127, 128, 129, 130, 131, 191, 255, 256, 257, 258, 259, 383, 511, 512, 513, 514, 600]))
     if quick: lens = [n for n in lens if n <= 70 or n in (127, 128, 129, 131, 255, 257, 258, 514)]
     reqs = [' '.join(gen.rb(r, 32).hex() for _ in range(n)) for n in lens]
